@@ -454,3 +454,112 @@ Definition check_asp (sp0 : list string) (progs : list (list aop)) (sched : list
            (observed : list aevent) (appended : list string) : nat :=
   let st := arun sched (ainit sp0 progs) in
   if andb (aevents_eqb (rev (alog st)) observed) (strs_eqb (added st) appended) then 0 else 1.
+
+(** * Tie B: a machine that runs the control-flow graph of the CURRENT source
+
+    tools/py2coq_c13.py compiles the bodies of [Cache.get] and [Cache.clear] (as found in
+    the repository at build time) into a table of the micro-instructions below — one node
+    per point at which another thread can be scheduled, successors explicit, the [with]
+    statement's release on the normal and on the exceptional exit made explicit — and
+    writes the tables to Gen/GenC13.v.  [nstep] is what one instruction does; program
+    counters are indices into the table.  Proofs/GenC13Proofs.v shows that this machine,
+    on the generated tables, is the hand-written [step] above, for all states. *)
+Inductive instr :=
+| IIfNoCache (yes no : nat)        (* if config.no_cache *)
+| IAcquire (next : nat)            (* with self._lock: enter (blocks while held) *)
+| IIfContains (yes no : nat)       (* if key in self._cache *)
+| ILoad (next exc : nat)           (* obj = self._cache[key]   (KeyError -> exc) *)
+| ICallEnter (next : nat)          (* creator() is entered *)
+| ICallExit (next exc : nat)       (* obj = its result | it raises *)
+| IStore (next : nat)              (* self._cache[key] = obj *)
+| IClearAll (next : nat)           (* self._cache.clear() *)
+| IRelease (next : nat)            (* with self._lock: exit *)
+| IReturnObj                       (* return obj *)
+| IReturnNone                      (* fall off the end *)
+| IRaise                           (* the exception leaves the function *)
+| IHalt.
+
+Record nthread := mkNTh { nprog : list op; npc : nat; nreg : option obj }.
+
+Record nstate := mkNSt {
+  nthreads : tid -> nthread;
+  nstore : key -> option obj;
+  nlock : option tid;
+  nnext : obj;
+  nnocache : bool;
+  nlog : list event
+}.
+
+Definition nupd (f : tid -> nthread) (t : tid) (th : nthread) : tid -> nthread :=
+  fun t' => if Nat.eqb t' t then th else f t'.
+
+Definition nstep (getc clearc : list instr) (t : tid) (st : nstate) : nstate :=
+  let th := nthreads st t in
+  match nprog th with
+  | [] => st
+  | o :: rest =>
+      let code := match o with OGet _ _ => getc | OClear => clearc end in
+      let goto n := nupd (nthreads st) t (mkNTh (nprog th) n (nreg th)) in
+      let finish := nupd (nthreads st) t (mkNTh rest 0 None) in
+      match nth (npc th) code IHalt, o with
+      | IIfNoCache y n, OGet _ _ =>
+          mkNSt (goto (if nnocache st then y else n))
+                (nstore st) (nlock st) (nnext st) (nnocache st) (nlog st)
+      | IAcquire n, _ =>
+          match nlock st with
+          | None => mkNSt (goto n) (nstore st) (Some t) (nnext st) (nnocache st)
+                          (EAcq t :: nlog st)
+          | Some _ => st
+          end
+      | IIfContains y n, OGet r _ =>
+          mkNSt (goto (match nstore st (key_of r) with Some _ => y | None => n end))
+                (nstore st) (nlock st) (nnext st) (nnocache st) (nlog st)
+      | ILoad n e, OGet r _ =>
+          match nstore st (key_of r) with
+          | Some ob => mkNSt (nupd (nthreads st) t (mkNTh (nprog th) n (Some ob)))
+                             (nstore st) (nlock st) (nnext st) (nnocache st)
+                             (ELoad t r ob :: nlog st)
+          | None => mkNSt (goto e) (nstore st) (nlock st) (nnext st) (nnocache st) (nlog st)
+          end
+      | ICallEnter n, OGet r _ =>
+          mkNSt (goto n) (nstore st) (nlock st) (nnext st) (nnocache st) (ECall t r :: nlog st)
+      | ICallExit n e, OGet r ok =>
+          if ok then
+            mkNSt (nupd (nthreads st) t (mkNTh (nprog th) n (Some (nnext st))))
+                  (nstore st) (nlock st) (nnext st + 1)%Z (nnocache st)
+                  (ECreated t r (nnext st) :: nlog st)
+          else
+            mkNSt (goto e) (nstore st) (nlock st) (nnext st) (nnocache st)
+                  (EFailed t r :: nlog st)
+      | IStore n, OGet r _ =>
+          match nreg th with
+          | Some ob => mkNSt (goto n) (supd (nstore st) (key_of r) ob) (nlock st) (nnext st)
+                             (nnocache st) (EStore t r ob :: nlog st)
+          | None => st
+          end
+      | IClearAll n, _ =>
+          mkNSt (goto n) sempty (nlock st) (nnext st) (nnocache st) (EClear t :: nlog st)
+      | IRelease n, _ =>
+          mkNSt (goto n) (nstore st) None (nnext st) (nnocache st) (ERel t :: nlog st)
+      | IReturnObj, OGet r _ =>
+          match nreg th with
+          | Some ob => mkNSt finish (nstore st) (nlock st) (nnext st) (nnocache st)
+                             (ERet t r ob :: nlog st)
+          | None => st
+          end
+      | IReturnNone, OClear =>
+          mkNSt finish (nstore st) (nlock st) (nnext st) (nnocache st) (ECleared t :: nlog st)
+      | IRaise, OGet r _ =>
+          mkNSt finish (nstore st) (nlock st) (nnext st) (nnocache st) (ERaise t r :: nlog st)
+      | _, _ => st
+      end
+  end.
+
+Fixpoint nrun (getc clearc : list instr) (sched : list tid) (st : nstate) : nstate :=
+  match sched with
+  | [] => st
+  | t :: rest => nrun getc clearc rest (nstep getc clearc t st)
+  end.
+
+Definition ninit (nc : bool) (progs : list (list op)) : nstate :=
+  mkNSt (fun t => mkNTh (nth t progs []) 0 None) sempty None 0%Z nc [].
